@@ -368,127 +368,17 @@ def _reaches(fn, a, b):
 
 # ---- R-SWAPBITS (proof by abstract interpretation over GF(2)-affine bit vectors) -------------------------
 
-W = 64
-MASK = (1 << W) - 1
-
-
-class BV:
-    """64 result bits; bit j = XOR of the input bits in rows[j] (bitmask over x's bits) xor const bit j"""
-    __slots__ = ("rows", "const")
-
-    def __init__(self, rows, const=0):
-        self.rows, self.const = rows, const
-
-    @staticmethod
-    def x():
-        return BV([1 << j for j in range(W)])
+from arklib import bvinterp as BI
+W = BI.W
 
 
 def bv_eval(fn, a, b, n):
     """abstractly run swap_bits' MIR with x symbolic and (a, b, n) concrete; returns BV or a string (why undecided)"""
-    vals = {1: BV.x(), 2: a, 3: b, 4: n}
-
-    def operand(o):
-        if "k" in o:
-            v = o["k"].get("v")
-            return v if isinstance(v, int) and not isinstance(v, bool) else None
-        l, projs = place_parts(op_place(o))
-        v = vals.get(l)
-        for p in projs:
-            if isinstance(p, (list, tuple)) and p[0] == "f" and isinstance(v, tuple):
-                v = v[int(p[1])]
-            else:
-                return None
-        return v
-    bb = 0
-    for _ in range(200):
-        blk = fn.bbs[bb]
-        for s in blk["s"]:
-            if "d" not in s:
-                continue
-            l, projs = place_parts(s["d"])
-            if projs:
-                return "store through projection"
-            r = s["r"]
-            k = r["k"]
-            if k in ("use", "cast"):
-                vals[l] = operand(r["o"])
-            elif k == "bin":
-                x, y = operand(r["a"]), operand(r["b"])
-                op = r["op"]
-                if x is None or y is None:
-                    return "unknown operand in %s" % op
-                ovf = op.endswith("WithOverflow")
-                base = op.replace("WithOverflow", "").replace("Unchecked", "")
-                if isinstance(x, int) and isinstance(y, int):
-                    if base == "Add":
-                        v, o_ = x + y, x + y > MASK
-                    elif base == "Sub":
-                        v, o_ = x - y, x < y
-                    elif base == "Mul":
-                        v, o_ = x * y, x * y > MASK
-                    elif base == "Shl":
-                        v, o_ = (x << y) & MASK, y >= W
-                    elif base == "Shr":
-                        v, o_ = x >> y, y >= W
-                    elif base == "BitAnd":
-                        v, o_ = x & y, False
-                    elif base == "BitOr":
-                        v, o_ = x | y, False
-                    elif base == "BitXor":
-                        v, o_ = x ^ y, False
-                    elif base in ("Lt", "Le", "Gt", "Ge", "Eq", "Ne"):
-                        v = {"Lt": x < y, "Le": x <= y, "Gt": x > y, "Ge": x >= y, "Eq": x == y, "Ne": x != y}[base]
-                        o_ = False
-                    else:
-                        return "operator %s" % op
-                    vals[l] = (v & MASK, o_) if ovf else (v if isinstance(v, bool) else v & MASK)
-                elif isinstance(x, BV) and isinstance(y, int) and base in ("Shl", "Shr"):
-                    if y >= W:
-                        return "shift amount out of range"
-                    if base == "Shr":
-                        rows = x.rows[y:] + [0] * y
-                        cst = x.const >> y
-                    else:
-                        rows = [0] * y + x.rows[:W - y]
-                        cst = (x.const << y) & MASK
-                    vals[l] = BV(rows, cst)
-                elif base == "BitAnd" and (isinstance(x, BV) != isinstance(y, BV)):
-                    v, m = (x, y) if isinstance(x, BV) else (y, x)
-                    if not isinstance(m, int):
-                        return "mask is not concrete"
-                    vals[l] = BV([v.rows[j] if (m >> j) & 1 else 0 for j in range(W)], v.const & m)
-                elif base == "BitXor" and isinstance(x, BV) and isinstance(y, BV):
-                    vals[l] = BV([p ^ q for p, q in zip(x.rows, y.rows)], x.const ^ y.const)
-                elif base == "BitXor" and (isinstance(x, BV) != isinstance(y, BV)):
-                    v, m = (x, y) if isinstance(x, BV) else (y, x)
-                    vals[l] = BV(list(v.rows), v.const ^ m)
-                elif base == "BitOr" and isinstance(x, BV) and isinstance(y, BV):
-                    rows = []
-                    for j in range(W):
-                        xz = x.rows[j] == 0 and not (x.const >> j) & 1
-                        yz = y.rows[j] == 0 and not (y.const >> j) & 1
-                        if not (xz or yz):
-                            return "bitwise OR of overlapping symbolic bits"
-                        rows.append(x.rows[j] | y.rows[j])
-                    vals[l] = BV(rows, x.const | y.const)
-                else:
-                    return "operator %s on symbolic operands" % op
-            else:
-                return "statement kind %s" % k
-        t = blk["t"]
-        if t["k"] == "goto":
-            bb = t["t"]
-        elif t["k"] == "assert":
-            c = operand(t["c"]) if "c" in t else None
-            if c is None or bool(c) != bool(t.get("exp", True)):
-                return "overflow assertion fails (or is not decidable)"
-            bb = t["t"]
-        elif t["k"] == "return":
-            return vals.get(0)
-        else:
-            return "terminator %s" % t["k"]
-    return "too long"
+    try:
+        vals, end = BI.run(fn, {1: BI.BV.word(0), 2: a, 3: b, 4: n})
+    except BI.Stop as e:
+        return str(e)
+    return vals.get(0) if end == "return" else "did not return"
 
 
 def check_swapbits(res, facts, tier):
